@@ -499,6 +499,13 @@ func runItem(a arrangement, label int, strats []strategy) {
 						ringID, st.name, b.ps.short, b.tokens, lk, a.owners[start], got, want)
 				}
 				replay["lookup"] = lk
+				if len(want) >= 2 && T > n && li == 2 && label%7 == 3 && b.ps.short == "m3" && (st.simple || len(st.dcs) >= 2) && r.NeedSample() {
+					if st.simple && atomic.AddInt64(&simpleSamples, 1) > 3 {
+						// at most 3 SimpleStrategy samples
+					} else {
+						r.Sample(map[string]interface{}{"ring_owners": a.owners, "nodes": eps, "setting": st.name, "ring_tokens": b.tokens, "lookup": lk, "cassandra": want, "gocql": got})
+					}
+				}
 				dup := false
 				var seen, ws uint // bit sets over node numbers (bit 0: a nil host)
 				for _, g := range got {
@@ -535,9 +542,6 @@ func runItem(a arrangement, label int, strats []strategy) {
 				if ownerHolds && (len(got) == 0 || got[0] != owner) {
 					viol(sName+":range-owner-not-first:"+feat(), detail, replay)
 				}
-				if len(want) >= 3 && T > n && li == 2 && label%7 == 3 && b.ps.short == "m3" && eps[want[0]].DC != eps[want[len(want)-1]].DC && r.NeedSample() {
-					r.Sample(map[string]interface{}{"ring_owners": a.owners, "nodes": eps, "setting": st.name, "ring_tokens": b.tokens, "lookup": lk, "cassandra": want, "gocql": got})
-				}
 			}
 		}
 	}
@@ -558,6 +562,7 @@ func viol(key string, detail func() string, replay interface{}) {
 }
 
 var cmu sync.Mutex
+var simpleSamples int64
 
 func addAll(c *counters) {
 	cmu.Lock()
